@@ -8,6 +8,7 @@ export SCR=${SCR:-/tmp/scrall}
 mkdir -p $SCR-sim/src; rsync -a --delete /verif/sim/src/ $SCR-sim/src/; export SCR_NOSYNC=1
 for d in seeded/*/; do
   name=$(basename $d)
+  if [ -n "${FILTER:-}" ] && ! echo "$name" | grep -Eq "$FILTER"; then continue; fi
   [ -f $d/patch.diff ] || continue
   [ -f $d/meta.json ] || continue
   ids=$(python3 -c "
